@@ -1,7 +1,7 @@
 package checks
 
-// fileLevelPrograms returns multi-statement files (script + text + movement +
-// mart + mapscripts + raw in every order of <= 3 kinds) for the closure check.
+// fileLevelPrograms returns multi-statement files: every ordered selection of <= 3 of 12 statements (two or three of
+// each kind: scripts, texts, movements, marts, mapscripts with tables and inline scripts, raw) for the file-level checks.
 func fileLevelPrograms(tier string) []*fileProgram {
 	type piece struct {
 		src    string
@@ -18,6 +18,13 @@ func fileLevelPrograms(tier string) []*fileProgram {
 		{src: "mapscripts Map1 {\n\tMAP_SCRIPT_ON_LOAD: S_ext\n\tMAP_SCRIPT_ON_RESUME {\n\t\tif (flag(C)) {\n\t\t\tmsgbox(\"hi\")\n\t\t}\n\t}\n\tMAP_SCRIPT_ON_FRAME_TABLE [\n\t\tVAR_X, 1: S_ext2\n\t\tVAR_X, 2 {\n\t\t\tlock\n\t\t\tLm:\n\t\t\trelease\n\t\t}\n\t]\n}\n",
 			owners: []string{"Map1_MAP_SCRIPT_ON_RESUME", "Map1_MAP_SCRIPT_ON_FRAME_TABLE_1"}, data: []string{"Map1", "Map1_MAP_SCRIPT_ON_FRAME_TABLE"}, user: []string{"Lm"}},
 		{src: "raw `\nRawData:\n\t.byte 1\n`\n", data: []string{"RawData"}},
+		// a second statement of each kind (what one statement leaves behind must not reach the next of its kind)
+		{src: "mapscripts Map2 {\n\tMAP_SCRIPT_ON_FRAME_TABLE [\n\t\tVAR_Y, 0 {\n\t\t\tmsgbox(\"two\")\n\t\t\tif (flag(D)) {\n\t\t\t\tq\n\t\t\t}\n\t\t}\n\t\tVAR_Y, 1: S_ext\n\t\tVAR_Y, 2 {\n\t\t\tr\n\t\t}\n\t]\n\tMAP_SCRIPT_ON_WARP_INTO_MAP_TABLE [\n\t\tVAR_Z, 0: S_ext2\n\t]\n\tMAP_SCRIPT_ON_TRANSITION {\n\t\tapplymovement(2, moves(walk_up walk_down))\n\t}\n}\n",
+			owners: []string{"Map2_MAP_SCRIPT_ON_FRAME_TABLE_0", "Map2_MAP_SCRIPT_ON_FRAME_TABLE_2", "Map2_MAP_SCRIPT_ON_TRANSITION"}, data: []string{"Map2", "Map2_MAP_SCRIPT_ON_FRAME_TABLE", "Map2_MAP_SCRIPT_ON_WARP_INTO_MAP_TABLE"}},
+		{src: "text T2 {\n\tascii\"hi\"\n}\n", data: []string{"T2"}},
+		{src: "movement(global) M2 {\n\twalk_up\n\twalk_down\n}\n", data: []string{"M2"}},
+		{src: "mart(global) Mart2 {\n\tITEM_B\n\tITEM_NONE\n\tITEM_C\n}\n", data: []string{"Mart2"}},
+		{src: "script(local) S3 {\n\tswitch (var(W)) {\n\t\tcase 1:\n\t\t\tmsgbox(\"two\")\n\t\tdefault:\n\t\t\tapplymovement(3, moves(walk_left))\n\t}\n}\n", owners: []string{"S3"}},
 	}
 	var out []*fileProgram
 	n := len(pieces)
